@@ -48,6 +48,8 @@ func runC09(c *Ctx) {
 		L.Check(okCmp && okIdx, "match-mode", r.label, "residue comparison / matrix lookup", c.P.Pos(fn.Pos()), "compares c1 with c2; indexes the matrix with i1, i2", fmt.Sprintf("matchScore no longer compares the two residues themselves (residue comparison: %v, matrix lookup by index: %v): distinct characters sharing a matrix index would count as matches", okCmp, okIdx))
 	}
 	L.Floor("match-mode", 1, "one function")
+	c.checkSetters("setter-records-arguments", "align", "*pwaligner")
+	c.L.Floor("setter-records-arguments", 2, "4 parameters of the aligner setters (floor = half)")
 }
 
 func isUint8(t types.Type) bool {
